@@ -27,6 +27,7 @@ TARGETS = [
     ("chol.root_decomposition", OPS + "chol_linear_operator.py", "CholLinearOperator", "root_decomposition"),
     ("batchrepeat._root_decomposition", OPS + "batch_repeat_linear_operator.py", "BatchRepeatLinearOperator", "_root_decomposition"),
     ("constmul.root_decomposition", OPS + "constant_mul_linear_operator.py", "ConstantMulLinearOperator", "root_decomposition"),
+    ("constmul.root_inv_decomposition", OPS + "constant_mul_linear_operator.py", "ConstantMulLinearOperator", "root_inv_decomposition"),
     ("kron.root_decomposition", OPS + "kronecker_product_linear_operator.py", "KroneckerProductLinearOperator", "root_decomposition"),
     ("sumkron._root_decomposition", OPS + "sum_kronecker_linear_operator.py", "SumKroneckerLinearOperator", "_root_decomposition"),
     ("root.root_decomposition", OPS + "root_linear_operator.py", "RootLinearOperator", "root_decomposition"),
